@@ -487,3 +487,11 @@ def r01_6(ctx):
 @rule("R01.7", min_instances=8, desc="pack order: the kinds get_p_sys supplies as the ODE's p input are in the order Stage.p + Stage.v declares them")
 def r01_7(ctx):
     check_pack_order(ctx)
+
+
+@rule("R01.8", min_instances=30, desc="content/position agreement (layout interpreter, swept over N, M): xk[k*M+i] is the state after i steps in interval k, poly_coeff[k*M+i] its dense-output block, xqk/Q the running quadratures; list lengths match their position kinds")
+def r01_8(ctx):
+    from .layout_rules import shooting_content, kinds_table
+    for cname in ("MultipleShooting", "SingleShooting"):
+        shooting_content(ctx, cname)
+        kinds_table(ctx, cname)
